@@ -795,3 +795,19 @@ Section Files.
       destruct (last =? ""); [destruct Hl|]. destruct Hl as [<-|[]]. exact NLl.
   Qed.
 End Files.
+
+(* ================================================================ the one thing the loader refuses *)
+(* n copies of a byte *)
+Definition rep (n : N) (c : ascii) : string := N.iter n (String c) "".
+
+(* a file that consists of one line of 65536 bytes: no item at all, and the load fails - so
+   "every line of a play file parses to exactly one item" needs the bound on the line length
+   that load_text_items states *)
+Lemma long_line_refused pd ro ai :
+  List.length (raw_lines (rep 65536 "=")) = 1%nat /\ load_text pd ro ai (rep 65536 "=") = ([], true).
+Proof. split; vm_compute; reflexivity. Qed.
+
+(* while a line of 65535 bytes is read like any other *)
+Lemma longest_line_read pd ro ai :
+  List.length (fst (load_text pd ro ai (rep 65535 "="))) = 1%nat /\ snd (load_text pd ro ai (rep 65535 "=")) = false.
+Proof. split; vm_compute; reflexivity. Qed.
